@@ -12,6 +12,16 @@ def cfFldOfJson (j : Json) : R (Fld CF) := do
   let off ← getInts j "off"
   pure { arr := a, o0 := off[0]!, o1 := off[1]! }
 
+/-- field with an optional `"tilt": [sr, sc]` (output samples; default no tilt) -/
+def cfTiltedOfJson (j : Json) : R (Fld CF × Float × Float) := do
+  let f ← cfFldOfJson j
+  match optVal j "tilt" with
+  | none => pure (f, 0.0, 0.0)
+  | some t => do
+      let a ← t.getArr?
+      let v ← a.mapM floatOfJson
+      pure (f, v[0]!, v[1]!)
+
 def realArrToJson (a : Arr Float) : Json :=
   let cells := (idxList a.s0 a.s1).map fun (i, j) => a.get i j
   Json.mkObj [("shape", ints #[a.s0, a.s1]), ("v", Json.arr (cells.map floatToJson).toArray)]
@@ -19,9 +29,12 @@ def realArrToJson (a : Arr Float) : Json :=
 def handle (op : String) (j : Json) : Option (R Json) :=
   match op with
   | "c05.window" => some do
-      let fs ← (← getArr j "fields").mapM cfFldOfJson
+      let ts ← (← getArr j "fields").mapM cfTiltedOfJson
       let al ← getFloats j "alpha"; let w ← getInts j "window"     -- [M, N, U0, V0]
-      let F : Arr CF := propagateWindow fs.toList al[0]! al[1]! w[0]! w[1]! w[2]! w[3]!
+      let F : Arr CF :=
+        if ts.all (fun t => t.2.1 == 0.0 && t.2.2 == 0.0) then
+          propagateWindow (ts.toList.map (·.1)) al[0]! al[1]! w[0]! w[1]! w[2]! w[3]!
+        else propagateWindowTilted ts.toList al[0]! al[1]! w[0]! w[1]! w[2]! w[3]!
       pure (okJ [("I", realArrToJson (intensity (R := Float) F))])
   | "c05.fft" => some do
       let fs ← (← getArr j "fields").mapM cfFldOfJson
